@@ -83,8 +83,9 @@ Definition value_of_term (t : term) : option sval :=
           if str_eqb local s_integer then option_map (fun z => SNum (num_of_Z z)) (parse_int lex)
           else if str_eqb local s_string then Some (SStr lex None)
           else if str_eqb local s_boolean then
-            Some (SBool (if str_eqb lex s_true then Some true
-                         else if str_eqb lex s_false then Some false else None))
+            Some (SBool (if str_eqb lex s_true || str_eqb lex [49] then Some true      (* "true" | "1" *)
+                         else if str_eqb lex s_false || str_eqb lex [48] then Some false (* "false" | "0" *)
+                         else None))
           else Some SOther
       end
   | _ => None
